@@ -152,6 +152,11 @@ func evalC02(c C02Case) *h.Finding {
 	if len(o.Replies) < 6 || o.Replies[4].Code != 354 {
 		return h.F("c02-prefix", "%s: unexpected replies before the message: %s", desc, o.Codes())
 	}
+	// when a segment ends exactly behind the first true end marker, the answer to DATA is due before the server takes a
+	// single octet of the next segment: the end marker, and nothing later, ends the message
+	if end := len(full) - len(rest); len(c.Cuts) == 1 && len(pro)+c.Cuts[0] == end && len(o.ReplyAt) > 5 && o.ReplyAt[5] > end {
+		return h.F("c02-end-marker-did-not-end-the-message", "%s: the server answered DATA (%s) only after it had taken %d octets of input; the end marker ends at octet %d", desc, o.Replies[5].String(), o.ReplyAt[5], end)
+	}
 	want := c02Reference(c.Mode, rest)
 	if strings.Join(got.replies, "|") != strings.Join(want.replies, "|") {
 		return h.F("c02-desync-replies", "%s: after the final DATA reply (%s) the server answered [%s]; the lines after the end marker %q call for [%s]",
